@@ -98,6 +98,8 @@ Allowed(Ko, rowsObs) ==
 
 OnObs(Ko, e) ==
     IF e.opened # 1 THEN V(FALSE, Ko, "C07 a fresh handle cannot open the directory after the kill")
+    ELSE IF e.count_follows # 1
+    THEN V(FALSE, Ko, "C07 after the kill the item count no longer follows the stored items (a write by the next process is not counted)")
     ELSE IF e.settings_bad # <<>>
     THEN V(FALSE, Ko, "C07 the handle opened after the kill lacks settings or has values nobody asked for: " \o ToJson(e.settings_bad))
     ELSE IF \E i \in DOMAIN e.rows : e.rows[i][2] < 0 /\ e.rows[i][2] # NoExp
